@@ -41,3 +41,92 @@ package sqlite
 //@   ensures[C16] typeis(msg, *mocrelay.ClientCountMsg) ==> (result1 == nil && holdsOneS(result0) && isCountFor(chanbuf(result0)[0], as(msg, *mocrelay.ClientCountMsg).SubscriptionID))
 //@   ensures[C16] typeis(msg, *mocrelay.ClientReqMsg) ==> (result1 == nil && !isnil(result0) && chanclosed(result0) && len(chanbuf(result0)) >= 1 && isEOSEFor(chanbuf(result0)[len(chanbuf(result0)) - 1], as(msg, *mocrelay.ClientReqMsg).SubscriptionID))
 //@   ensures[C16] (typeis(msg, *mocrelay.ClientEventMsg) && result1 == nil) ==> (holdsOneS(result0) && isOKFor(chanbuf(result0)[0], as(msg, *mocrelay.ClientEventMsg).Event.ID) && as(chanbuf(result0)[0], *mocrelay.ServerOKMsg).Accepted)
+
+// ---------------------------------------------------------------------------------------------
+// C06: storage keys, tombstones and query limits (the Go code around the SQL)
+
+//@ func getEventKey
+//@   serves C06
+//@   requires event != nil
+//@   ensures[C06] result1 == !isEphemeralK(event.Kind)
+//@   ensures[C06] (!isReplaceableK(event.Kind) && !isEphemeralK(event.Kind) && !isAddressableK(event.Kind)) ==> result0 == regularKeyOf(seed, event.CreatedAt, event.ID)
+//@   ensures[C06] isReplaceableK(event.Kind) ==> result0 == addrKeyOf(seed, event.Pubkey, sprintf("%d:%s", event.Kind, event.Pubkey))
+//@   ensures[C06] isAddressableK(event.Kind) ==> all(i, int, firstDTagS(event, i) ==> result0 == addrKeyOf(seed, event.Pubkey, sprintf("%d:%s:%s", event.Kind, event.Pubkey, tagVal(event.Tags[i]))))
+//@   ensures[C06] (isAddressableK(event.Kind) && !hasDTagS(event)) ==> result0 == addrKeyOf(seed, event.Pubkey, sprintf("%d:%s:%s", event.Kind, event.Pubkey, ""))
+
+//@ func buildInsertEventsParamsDeletedEventKeys
+//@   serves C06
+//@   requires event != nil
+//@   ensures[C06] event.Kind != 5 ==> (len(result0) == 0 && isnil(result1))
+//@   ensures[C06] event.Kind == 5 ==> (isnil(result1) == hexOK(event.Pubkey))
+//@   ensures[C06] (event.Kind == 5 && isnil(result1)) ==> forall(i, 0, len(result0), exists(j, 0, len(event.Tags), aRefOK(event.Tags[j]) && isKeyRow(result0[i], seed, event.Tags[j][1], event.Pubkey)))
+//@   ensures[C06] (event.Kind == 5 && isnil(result1)) ==> forall(j, 0, len(event.Tags), aRefOK(event.Tags[j]) ==> exists(i, 0, len(result0), isKeyRow(result0[i], seed, event.Tags[j][1], event.Pubkey)))
+//@   loop 1 as n
+//@     invariant forall(i, 0, len(ret), exists(j, 0, n, aRefOK(event.Tags[j]) && isKeyRow(ret[i], seed, event.Tags[j][1], event.Pubkey)))
+//@     invariant forall(j, 0, n, aRefOK(event.Tags[j]) ==> exists(i, 0, len(ret), isKeyRow(ret[i], seed, event.Tags[j][1], event.Pubkey)))
+//@     invariant pubkeyBin == hexBytes(event.Pubkey)
+
+//@ func buildInsertEventsParamsDeletedEventIDs
+//@   serves C06
+//@   requires event != nil
+//@   ensures[C06] event.Kind != 5 ==> (len(result0) == 0 && isnil(result1))
+//@   ensures[C06] event.Kind == 5 ==> (isnil(result1) == hexOK(event.Pubkey))
+//@   ensures[C06] (event.Kind == 5 && isnil(result1)) ==> forall(i, 0, len(result0), exists(j, 0, len(event.Tags), eRefOK(event.Tags[j]) && isIDRow(result0[i], event.Tags[j][1], event.Pubkey)))
+//@   ensures[C06] (event.Kind == 5 && isnil(result1)) ==> forall(j, 0, len(event.Tags), eRefOK(event.Tags[j]) ==> exists(i, 0, len(result0), isIDRow(result0[i], event.Tags[j][1], event.Pubkey)))
+//@   loop 1 as n
+//@     invariant forall(i, 0, len(ret), exists(j, 0, n, eRefOK(event.Tags[j]) && isIDRow(ret[i], event.Tags[j][1], event.Pubkey)))
+//@     invariant forall(j, 0, n, eRefOK(event.Tags[j]) ==> exists(i, 0, len(ret), isIDRow(ret[i], event.Tags[j][1], event.Pubkey)))
+//@     invariant pubkeyBin == hexBytes(event.Pubkey)
+
+//@ func appendLimitQuery
+//@   serves C06
+//@   requires b != nil && (limit != nil ==> *limit >= 0)
+//@   writes nothing
+//@   ensures[C06] result != nil
+//@   ensures[C06] effLimit(limit, maxLimit) == 0 ==> g(qnone, result)
+//@   ensures[C06] (effLimit(limit, maxLimit) != 0 && effLimit(limit, maxLimit) != NoLimit) ==> (g(qlimit, result) == effLimit(limit, maxLimit) && g(qnone, result) == g(qnone, b))
+//@   ensures[C06] effLimit(limit, maxLimit) == NoLimit ==> result == b
+
+// ---------------------------------------------------------------------------------------------
+// C14: a batch runs in one transaction that is committed iff every statement succeeded
+
+//@ func buildInsertEventsParams
+//@   serves C14
+//@   trusted row construction (its parts getEventKey and the tombstone builders are under contract for C06); here only "no effect on the database"
+//@   writes nothing
+
+//@ func insertEvents
+//@   serves C14
+//@   requires db != nil
+//@   writes ghost(lasttx, db), ghost(txcount, db), ghost(commits, db)
+//@   ensures[C14] g(commits, db) == old(g(commits, db)) + ite(isnil(err) && g(txcount, db) == old(g(txcount, db)) + 1, 1, 0)
+//@   ensures[C14] g(txcount, db) == old(g(txcount, db)) || g(txcount, db) == old(g(txcount, db)) + 1
+//@   ensures[C14] g(txcount, db) == old(g(txcount, db)) ==> g(lasttx, db) == old(g(lasttx, db))
+//@   ensures[C14] (g(txcount, db) == old(g(txcount, db)) + 1 && isnil(err)) ==> g(txstate, g(lasttx, db)) == 1
+//@   ensures[C14] (g(txcount, db) == old(g(txcount, db)) + 1 && !isnil(err)) ==> g(txstate, g(lasttx, db)) == 2
+//@   ensures[C14] (g(txcount, db) == old(g(txcount, db)) + 1 && g(txfailed, g(lasttx, db))) ==> g(txstate, g(lasttx, db)) == 2
+//@   loop 1
+//@     lwrites ghost(txfailed, tx)
+//@     invariant tx != nil && fresh(tx) && g(txstate, tx) == 0 && g(lasttx, db) == tx && isnil(err) && g(txcount, db) == old(g(txcount, db)) + 1
+//@     invariant g(txdb, tx) == db && g(commits, db) == old(g(commits, db)) && !g(txfailed, tx)
+//@     invariant eventsStmt != nil && g(stmttx, eventsStmt) == tx && eventPayloadsStmt != nil && g(stmttx, eventPayloadsStmt) == tx && tagsStmt != nil && g(stmttx, tagsStmt) == tx
+//@     invariant deletedEventKeysStmt != nil && g(stmttx, deletedEventKeysStmt) == tx && deletedEventIDsStmt != nil && g(stmttx, deletedEventIDsStmt) == tx
+//@   loop 2
+//@     lwrites ghost(txfailed, tx)
+//@     invariant g(txstate, tx) == 0 && isnil(err) && !g(txfailed, tx)
+//@   loop 3
+//@     lwrites ghost(txfailed, tx)
+//@     invariant g(txstate, tx) == 0 && isnil(err) && !g(txfailed, tx)
+//@   loop 4
+//@     lwrites ghost(txfailed, tx)
+//@     invariant g(txstate, tx) == 0 && isnil(err) && !g(txfailed, tx)
+
+//@ func simpleSQLiteHandler.bulkInsertWithRetry
+//@   serves C14
+//@   requires h != nil && h.db != nil
+//@   writes ghost(lasttx, h.db), ghost(txcount, h.db), ghost(commits, h.db)
+//@   ensures[C14] !isnil(result) ==> g(commits, h.db) == old(g(commits, h.db))
+//@   ensures[C14] isnil(result) ==> g(commits, h.db) <= old(g(commits, h.db)) + 1
+//@   loop 1
+//@     lwrites ghost(lasttx, h.db), ghost(txcount, h.db), ghost(commits, h.db)
+//@     invariant g(commits, h.db) == old(g(commits, h.db)) && 0 <= i && i <= 3
